@@ -4,6 +4,8 @@
 // compiled and run.
 #include "codegen.h"
 
+#include <cstring>
+
 #include <algorithm>
 #include <cmath>
 #include <set>
@@ -15,6 +17,7 @@ struct Variant
 {
     bool revEq = false, revVars = false, compBA = false;
     bool cross = false; // in component B the classes x1 and x2 go by each other's name
+    bool comments = false; // a comment in front of every operator and every variable name
     bool initElsewhere = false; // a state or constant that component B reads carries its initial value on B's copy (in B's units)
     std::string prefix;
 };
@@ -176,7 +179,16 @@ static std::string writeModel(const J &sys, const Variant &vr, const J &external
         }
         if (!eqs.empty()) {
             s += "  <math xmlns=\"" + std::string(MMLNS) + "\">\n";
-            for (auto &e : eqs) {
+            for (auto e : eqs) {
+                if (vr.comments) {
+                    for (const char *tag : {"<apply>", "<ci>", "<bvar>"}) {
+                        size_t at = 0;
+                        while ((at = e.find(tag, at)) != std::string::npos) {
+                            at += strlen(tag);
+                            e.insert(at, "<!-- c -->");
+                        }
+                    }
+                }
                 s += "    " + e + "\n";
             }
             s += "  </math>\n";
@@ -558,6 +570,7 @@ static void systemDrv(const J &sc, Emitter &out)
     variants[2].revVars = true;
     variants[3].compBA = true;
     variants[4].prefix = "q_";
+    variants[4].comments = true;
     variants[5].revEq = variants[5].revVars = variants[5].compBA = true;
     variants[5].prefix = "zz";
     J vs = J::arr();
